@@ -53,14 +53,14 @@ Theorem C13_link_second_detach_refuted :
     length (filter is_det os) = 2%nat /\ length (filter is_att os) = 0%nat.
 Proof. exact second_detach_refutes. Qed.
 
-(** A peer detach not yet seen by the application is answered by its next operation on the link (unless
-    that is a send() with credit in hand), in kind for close(), drop and a blocked send(). *)
+(** A peer detach not yet seen by the application is answered by its next operation on the link, in kind
+    for close(), drop and send(); and no transfer is written after it has arrived. *)
 Theorem C13_link_peer_detach_answered_partial :
-  (forall k c e, next_op e = true -> (e = VSend -> c = false) ->
-     existsb is_det (snd (lkstep (LIdle (Some k) c) e)) = true) /\
-  (forall k c e, (e = VClose \/ e = VDrop \/ (e = VSend /\ c = false)) ->
-     In (XDetach (answer k)) (snd (lkstep (LIdle (Some k) c) e)) \/ In (XDetach true) (snd (lkstep (LIdle (Some k) c) e))).
-Proof. split; [exact peer_detach_answered|exact answered_in_kind]. Qed.
+  (forall k c e, next_op e = true -> existsb is_det (snd (lkstep (LIdle (Some k) c) e)) = true) /\
+  (forall k c e, (e = VClose \/ e = VDrop \/ e = VSend) ->
+     In (XDetach (answer k)) (snd (lkstep (LIdle (Some k) c) e)) \/ In (XDetach true) (snd (lkstep (LIdle (Some k) c) e))) /\
+  (forall k c e, existsb is_xfer (snd (lkstep (LIdle (Some k) c) e)) = false).
+Proof. split; [exact peer_detach_answered|]. split; [exact answered_in_kind|exact no_transfer_after_peer_detach]. Qed.
 Print Assumptions C13_link_peer_detach_answered_partial.
 
 Theorem C13_link_answer_in_kind_refuted : forall c,
@@ -74,7 +74,7 @@ Theorem C13_link_returns_after_peer :
      (exists k, e = VPDetach k /\ (s = LDetSent \/ s = LClsSent)) \/
      (exists k c, s = LIdle (Some k) c) \/ (exists c, s = LDetached c)) /\
   (forall s r, In (DClose r) (snd (lkstep s (VPDetach KCloseErr))) -> r = Some RRemoteClosedWithError) /\
-  (forall c, In (DSend (Some RRemoteClosedWithError)) (snd (lkstep (LIdle (Some KCloseErr) false) VSend)) /\
+  (forall c, In (DSend (Some RRemoteClosedWithError)) (snd (lkstep (LIdle (Some KCloseErr) c) VSend)) /\
              In (DClose (Some RRemoteClosedWithError)) (snd (lkstep (LIdle (Some KCloseErr) c) VClose))).
 Proof. split; [exact detach_close_wait|]. split; [exact peer_error_to_close|exact peer_error_to_send]. Qed.
 Print Assumptions C13_link_returns_after_peer.
